@@ -16,6 +16,31 @@ func bsum8(data []byte, lo, hi int) uint8 {
 	return s
 }
 
+// bit reports whether bit n (0 = least significant) of b is set.
+func bit(b uint8, n uint) bool { return (b>>n)%2 == 1 }
+
+// le16 / le24 / le32: little-endian unsigned integers at data[at:].
+func le16(data []byte, at int) uint16 { return uint16(data[at]) + uint16(data[at+1])*256 }
+func le24(data []byte, at int) uint32 {
+	return uint32(data[at]) + uint32(data[at+1])*256 + uint32(data[at+2])*65536
+}
+func le32(data []byte, at int) uint32 {
+	return uint32(data[at]) + uint32(data[at+1])*256 + uint32(data[at+2])*65536 + uint32(data[at+3])*16777216
+}
+
+// specSigned interprets the low `bits` bits of x (others zero) as a two's
+// complement number.
+func specSigned(x uint16, bits uint) int16 {
+	if x < 1<<(bits-1) {
+		return int16(x)
+	}
+	return int16(int32(x) - int32(1)<<bits)
+}
+
+// specBCDVersion: SDR / repository version byte - low nibble is the major
+// digit, high nibble the minor digit (e.g. 0x51 is version 1.5 -> 15).
+func specBCDVersion(b uint8) uint8 { return (b%16)*10 + b/16 }
+
 //@ func checksum
 //@ props C20 C05 C06 C07
 //@ assigns nothing
@@ -68,7 +93,8 @@ func specPacked6Char(b []byte, k int) uint8 {
 //@ props C20 C05 C07
 //@ assigns nothing
 //@ requires [str.c] 0 <= c && c <= 31
-//@ ensures [C20.latin1-accept] (result2 == nil) == (len(b) >= 2 && len(b) >= c)
+//@ ensures [C20.latin1-accept] (result2 == nil) == ((c == 0 || len(b) >= 2) && len(b) >= c)
+//@ ensures [C07.latin1-empty] c == 0 ==> result2 == nil && len(result0) == 0 && result1 == 0 // an ID string of length zero is legal in every encoding (43.15)
 //@ ensures [C20.latin1-consumed] result2 == nil ==> result1 == c && len(result0) == c
 //@ ensures [C20.latin1-bytes] result2 == nil ==> forall(qk, 0, c, result0[qk] == b[qk])
 
@@ -89,3 +115,33 @@ func specPacked6Char(b []byte, k int) uint8 {
 //@ ensures [C20.packed-accept] (result2 == nil) == (len(b) >= (c*6+7)/8)
 //@ ensures [C20.packed-consumed] result2 == nil ==> result1 == (c*6+7)/8
 //@ ensures [C20.packed-chars] result2 == nil ==> len(result0) == c && forall(qk, 0, c, result0[qk] == specPacked6Char(b, qk))
+
+// ---- analog_data_format.go: raw reading interpretation (IPMI v2.0 table 43-1, byte 21 [7:6])
+
+//@ func parseAnalogDataFormatUnsigned
+//@ props C20 C15
+//@ assigns nothing
+//@ ensures [C20.analog-unsigned] int(result) == int(r)
+
+//@ func parseAnalogDataFormatOnesComplement
+//@ props C20 C15
+//@ assigns nothing
+//@ ensures [C20.analog-ones] int(result) == ite(r < 0x80, int(r), -int(^r))
+
+//@ func parseAnalogDataFormatTwosComplement
+//@ props C20 C15
+//@ assigns nothing
+//@ ensures [C20.analog-twos] int(result) == ite(r < 0x80, int(r), int(r)-256)
+
+// ---- entity_instance.go (IPMI v2.0 section 39.1)
+
+//@ func EntityInstance.IsSystemRelative
+//@ props C20
+//@ assigns nothing
+//@ ensures [C20.entity-system] result == (i <= 0x5f)
+//@ ensures [C20.entity-split] i <= 0x7f ==> result != i.IsDeviceRelative()
+
+//@ func EntityInstance.IsDeviceRelative
+//@ props C20
+//@ assigns nothing
+//@ ensures [C20.entity-device] result == (0x60 <= i && i <= 0x7f)
